@@ -12,6 +12,7 @@ import (
 	"sync"
 	"time"
 
+	evalfilter "github.com/skx/evalfilter/v2"
 	"github.com/skx/evalfilter/v2/object"
 
 	"verif/internal/eng"
@@ -23,6 +24,7 @@ import (
 func init() {
 	register("C08", "exploration", c08)
 	workers["c08"] = c08Worker
+	workers["c08par"] = c08ParWorker
 }
 
 type c08Case struct {
@@ -170,6 +172,83 @@ func c08RunCase(cs c08Case) string {
 	}
 	return "ok ran"
 }
+
+// c08ParWorker: vcheck worker c08par <seed> <iterations>. Sixteen goroutines, each with
+// its own evaluators, run faulting and pattern-heavy scripts at the same time; the
+// process must survive (a fatal runtime error cannot be recovered by the caller).
+func c08ParWorker(args []string) {
+	var seed int64
+	var iters int
+	fmt.Sscan(args[0], &seed)
+	fmt.Sscan(args[1], &iters)
+	dn, _ := os.OpenFile(os.DevNull, os.O_WRONLY, 0)
+	real := os.Stdout
+	os.Stdout = dn
+	var wg sync.WaitGroup
+	var mu sync.Mutex
+	var problems []string
+	total := 0
+	for g := 0; g < 16; g++ {
+		wg.Add(1)
+		go func(g int) {
+			defer wg.Done()
+			r := rand.New(rand.NewSource(seed*31 + int64(g)))
+			n := 0
+			for k := 0; k < iters; k++ {
+				pat := fmt.Sprintf("^g%d_%d[a-z]*%d$", g, k, r.Intn(1000))
+				if k%4 == 3 {
+					pat = fmt.Sprintf("(g%d_%d[", g, k)
+				}
+				var script string
+				switch k % 6 {
+				case 0:
+					script = fmt.Sprintf("return match(Name, %q) || Name ~= /%s/ || replace(Name, %q, \"x\") == Name;", pat, strings.ReplaceAll(strings.ReplaceAll(pat, "[", "\\["), "(", "\\("), pat)
+				case 1:
+					script = c08FaultScripts[r.Intn(len(c08FaultScripts))]
+				case 2:
+					script = fmt.Sprintf("foreach w in split(Name, %q) { x = replace(w, %q, \"-\"); } return hour(Count) + len(Labels) + len(sort(keys(Labels)));", fmt.Sprint(k%10), pat)
+				case 3:
+					script = "switch (Name) { case /" + fmt.Sprintf("g%d_%dq", g, k) + "/ { return 1; } case \"steve\" { return Labels; } default { return 1 % Z; } }"
+				case 4:
+					script = fmt.Sprintf("function f(n) { if (n <= 0) { return [1][n - 1] + \"%s\"; } return f(n - 1); } return f(40);", pat)
+				default:
+					script = fmt.Sprintf("return sprintf(\"%%s %%d\", Name ~= /%d/i, %d) + string(Labels) + weekday(Count);", k, k)
+				}
+				res := func() (res string) {
+					defer func() {
+						if rec := recover(); rec != nil {
+							res = fmt.Sprintf("panic: %v in %s", rec, script)
+						}
+					}()
+					e := evalfilter.New(script)
+					if err := e.Prepare(); err != nil {
+						return ""
+					}
+					obj := map[string]interface{}{"Z": 0, "Name": "steve", "Count": int64(1700000000 + k), "Labels": sharedC08Labels}
+					e.Execute(obj)
+					e.Run(obj)
+					return ""
+				}()
+				n++
+				if res != "" {
+					mu.Lock()
+					problems = append(problems, res)
+					mu.Unlock()
+				}
+			}
+			mu.Lock()
+			total += n
+			mu.Unlock()
+		}(g)
+	}
+	wg.Wait()
+	for _, p := range problems {
+		fmt.Fprintln(real, "PROBLEM", strings.ReplaceAll(p, "\n", " "))
+	}
+	fmt.Fprintln(real, "DONE", total)
+}
+
+var sharedC08Labels = map[string]interface{}{"a": 1, "b": []interface{}{1, "x"}, "c": map[string]interface{}{"d": 2.5}}
 
 // c08Worker: vcheck worker c08 <batch.json> <log>
 func c08Worker(args []string) {
@@ -370,6 +449,7 @@ func c08(c *ev.Ctx) {
 	c.Sample(map[string]interface{}{"kind": "text", "script": clip(cases[0].Script, 200)})
 	c.Sample(map[string]interface{}{"kind": "struct", "script": cases[nText+2*len(c08FaultScripts)].Script, "object": gen.RandStruct(rand.New(rand.NewSource(cases[nText+2*len(c08FaultScripts)].ObjSeed)), 4, 45, 20).Desc})
 	c08UsableAfterwards(c)
+	c08Concurrent(c, self, work)
 	c08Probes(c, self, work)
 }
 
@@ -441,6 +521,42 @@ func c08ParseLog(path string) (done bool, last int, results map[int]string) {
 		}
 	}
 	return done, last, results
+}
+
+// c08Concurrent: the same crash oracle with many evaluators at work at once.
+func c08Concurrent(c *ev.Ctx, self, work string) {
+	if !c.Want("concurrent") {
+		return
+	}
+	for p := 0; p < c.Pick(2, 6); p++ {
+		ef := filepath.Join(work, fmt.Sprintf("par-err-%d.txt", p))
+		cmd := exec.Command("timeout", "-s", "QUIT", "900", "bash", "-c", fmt.Sprintf("ulimit -v 8000000; exec %q worker c08par %d %d 2>%q", self, c.Seed*10+int64(p), c.Pick(400, 4000), ef))
+		out, _ := cmd.Output()
+		text := string(out)
+		c.Case(fmt.Sprintf("concurrent/%d", p), true)
+		var n int
+		if i := strings.LastIndex(text, "DONE "); i >= 0 {
+			fmt.Sscan(text[i+5:], &n)
+			c.Evals(n)
+			c.Count("concurrent_script_runs", n)
+			for _, line := range strings.Split(text, "\n") {
+				if strings.HasPrefix(line, "PROBLEM ") {
+					c.Violation(fmt.Sprintf("concurrent/%d", p), "panic under concurrent use", map[string]interface{}{"summary": clip(line, 600)})
+				}
+			}
+			continue
+		}
+		eb, _ := os.ReadFile(ef)
+		head := string(eb)
+		if i := strings.Index(head, "\n\n"); i > 0 {
+			head = head[:i]
+		}
+		if strings.Contains(string(eb), "fatal error") || strings.Contains(string(eb), "panic:") {
+			c.Violation(fmt.Sprintf("concurrent/%d", p), "process died: "+clip(strings.SplitN(head, "\n", 2)[0], 60), map[string]interface{}{"summary": "sixteen goroutines, each with evaluators of its own, ran faulting and pattern-heavy scripts at the same time and the process died: " + clip(head, 600), "stderr_head": clip(string(eb), 3000)})
+		} else {
+			c.Inconclusive(fmt.Sprintf("concurrent crash workload %d gave no result: %s", p, clip(head, 300)))
+		}
+	}
 }
 
 // c08UsableAfterwards: after runs that failed in every way, the same evaluator still
